@@ -240,18 +240,145 @@ pub fn strategy() -> impl Strategy<Value=FCase> {
   (pstate(), pstate(), 0u32..10, prop_oneof![Just(FCk::Exists), Just(FCk::Modified), Just(FCk::Hash), Just(FCk::Hash)], 0u32..3, 0u32..3, any::<u16>(), any::<bool>(), 0u8..4)
     .prop_map(|(s1, s2, touch, ck, t1, t2, sel, rev, derive)| {
       // A quarter of the directory cases check a re-split listing against the original.
-      let s2 = match (&s1, derive) { (PState::Dir { names }, 0) if !names.is_empty() => PState::Dir { names: resplit(names, sel, rev) }, _ => s2 };
+      let s2 = match (&s1, derive) {
+        (PState::Dir { names }, 0) if !names.is_empty() => PState::Dir { names: resplit(names, sel, rev) },
+        // A quarter of the file cases change the content but not the length (and, half of the time, not the mtime).
+        (PState::File { len, seed }, 0) if *len > 0 => PState::File { len: *len, seed: seed.wrapping_add(1 + (sel % 3) as u8) % 4 },
+        _ => s2,
+      };
+      let t2 = if derive == 0 && rev { t1 } else { t2 };
       FCase { s1, s2, touch: touch > 0, ck, t1, t2 }
     })
 }
 
+// ---------------------------------------------------------------------------------------------------------------------
+// Sequences: one path walked through several states on ONE Pie instance (one resource state), stamps taken in every
+// state through rotating routes, and every earlier stamp checked in every later state.
+
+#[derive(Clone, Debug, Serialize, Deserialize, PartialEq, Eq, Hash)]
+pub struct FStep {
+  /// `None` = leave the path untouched in this step.
+  pub to: Option<PState>,
+  pub mtime: u32,
+  /// Checks made before stamping in this step (0..3 repeated checks of older stamps exercise caching of results).
+  pub rechecks: u8,
+}
+
+#[derive(Clone, Debug, Serialize, Deserialize, PartialEq, Eq, Hash)]
+pub struct FSeq { pub ck: FCk, pub steps: Vec<FStep> }
+
+fn aspect_differs(ck: FCk, a: &(PState, u32, usize), b: &(PState, u32, usize)) -> Option<bool> {
+  let ex1 = !matches!(a.0, PState::Absent);
+  let ex2 = !matches!(b.0, PState::Absent);
+  match ck {
+    FCk::Exists => Some(ex1 != ex2),
+    FCk::Modified => Some(ex1 != ex2 || (ex1 && ex2 && a.1 != b.1)),
+    FCk::Hash => match (&a.0, &b.0) {
+      (PState::Absent, PState::Absent) => Some(false),
+      (PState::Absent, _) | (_, PState::Absent) => Some(true),
+      (PState::File { len: l1, seed: s1 }, PState::File { len: l2, seed: s2 }) => Some(content(*l1, *s1) != content(*l2, *s2)),
+      (PState::Dir { .. }, PState::Dir { .. }) => { if name_set(&a.0) != name_set(&b.0) { Some(true) } else if a.2 == b.2 { Some(false) } else { None } }
+      _ => None,
+    },
+  }
+}
+
+fn seq_with<C: ResourceChecker<PathBuf>>(c: &C, seq: &FSeq, path: &PathBuf, st: &mut St, stats: &mut Stats) -> CheckResult
+where C::Stamp: PartialEq + std::fmt::Debug, C::Error: std::fmt::Debug {
+  let io = |e: std::io::Error| Failure::new(format!("harness io error: {}", e));
+  let dbg = |e: C::Error| Failure::new(format!("checker returned an error on a valid state: {:?}", e));
+  // (state, mtime, generation) at the time each stamp was taken
+  let mut stamps: Vec<((PState, u32, usize), C::Stamp)> = vec![];
+  let mut cur: (PState, u32, usize) = (PState::Absent, 0, 0);
+  clear(path);
+  for (j, step) in seq.steps.iter().enumerate() {
+    let mut via_writer: Option<C::Stamp> = None;
+    if let Some(to) = &step.to {
+      match to {
+        PState::File { len, seed } if j % 2 == 1 && !path.is_dir() => {
+          // through the resource's own writer
+          let mut w = path.write(st.state()).map_err(|e| Failure::new(format!("PathBuf::write failed: {:?}", e)))?;
+          w.write_all(&content(*len, *seed)).map_err(io)?;
+          w.flush().map_err(io)?;
+          filetime::set_file_mtime(path, FileTime::from_unix_time(1_600_000_000 + step.mtime as i64, 0)).map_err(io)?;
+          via_writer = Some(c.stamp_writer(path, w).map_err(dbg)?);
+        }
+        other => establish(path, other, step.mtime).map_err(io)?,
+      }
+      cur = (to.clone(), step.mtime, j + 1);
+    }
+    // Every earlier stamp, checked in the current state (repeatedly: results must not depend on earlier checks).
+    for round in 0..=(step.rechecks % 3) as usize {
+      for (i, (then, stamp)) in stamps.iter().enumerate() {
+        let got = c.check(path, st.state(), stamp).map_err(dbg)?.is_some();
+        match aspect_differs(seq.ck, then, &cur) {
+          Some(e) => {
+            if e { stats.class("seq_check_expected_inconsistent"); } else { stats.class("seq_check_expected_consistent"); }
+            if got != e {
+              return Err(Failure::new(format!("{:?} step {} (check round {}): stamp #{} taken in {:?} (mtime {}), path now {:?} (mtime {}): inconsistent={} but the observed aspect {}", seq.ck, j, round, i, then.0, then.1, cur.0, cur.1, got, if e { "differs" } else { "is the same" })));
+            }
+          }
+          None => stats.class("seq_check_without_claim"),
+        }
+      }
+    }
+    // Stamp in the current state through all routes; they must agree.
+    let s_p = c.stamp(path, st.state()).map_err(dbg)?;
+    let mut rd = path.read(st.state()).map_err(|e| Failure::new(format!("read failed: {:?}", e)))?;
+    let s_r = c.stamp_reader(path, &mut rd).map_err(dbg)?;
+    drop(rd);
+    if s_r != s_p { return Err(Failure::new(format!("step {}: stamp from path {:?} and from a fresh reader {:?} differ in state {:?}", j, s_p, s_r, cur.0))); }
+    if let Some(s_w) = via_writer { if s_w != s_p { return Err(Failure::new(format!("step {}: stamp from the writer just used {:?} differs from the stamp from the path {:?} in state {:?}", j, s_w, s_p, cur.0))); } stats.class("seq_stamp_writer_route"); }
+    stamps.push((cur.clone(), if j % 3 == 2 { s_r } else { s_p }));
+  }
+  Ok(())
+}
+
+pub fn check_seq(seq: &FSeq, stats: &mut Stats) -> CheckResult {
+  let dir = tempfile::Builder::new().prefix("pv-c13s-").tempdir().map_err(|e| Failure::new(format!("tempdir: {}", e)))?;
+  let path = dir.path().join("p");
+  let mut st = St(Pie::default());
+  let changes = seq.steps.iter().filter(|s| s.to.is_some()).count();
+  if changes >= 2 { stats.nontrivial(fingerprint(seq)); stats.sample(|| json!(format!("{:?}", seq))); }
+  match seq.ck {
+    FCk::Exists => seq_with(&ExistsChecker, seq, &path, &mut st, stats),
+    FCk::Modified => seq_with(&ModifiedChecker, seq, &path, &mut st, stats),
+    FCk::Hash => seq_with(&HashChecker, seq, &path, &mut st, stats),
+  }
+}
+
+pub fn seq_strategy() -> impl Strategy<Value=FSeq> {
+  let step = (proptest::option::weighted(0.8, pstate()), 0u32..3, 0u8..3, any::<u16>()).prop_map(|(to, mtime, rechecks, sel)| (FStep { to, mtime, rechecks }, sel));
+  (prop_oneof![Just(FCk::Exists), Just(FCk::Modified), Just(FCk::Hash), Just(FCk::Hash)], proptest::collection::vec(step, 2..=6)).prop_map(|(ck, raw)| {
+    // Bias: a file step is often followed by a same-length content change with the same mtime; a directory step by a re-split listing.
+    let mut steps: Vec<FStep> = vec![];
+    for (mut st, sel) in raw {
+      if sel % 3 == 0 {
+        if let Some(prev) = steps.iter().rev().find_map(|p| p.to.clone().map(|t| (t, p.mtime))) {
+          match prev {
+            (PState::File { len, seed }, mt) if len > 0 => { st.to = Some(PState::File { len, seed: (seed + 1 + (sel / 3 % 3) as u8) % 4 }); if sel % 2 == 0 { st.mtime = mt; } }
+            (PState::Dir { names }, _) if !names.is_empty() => { st.to = Some(PState::Dir { names: resplit(&names, sel / 3, sel % 2 == 0) }); }
+            _ => {}
+          }
+        }
+      }
+      steps.push(st);
+    }
+    FSeq { ck, steps }
+  })
+}
+
 pub fn replay(path: &Path) -> Result<CheckResult, String> {
+  if driver::replay_label(path).map(|x| x.1 == "seq").unwrap_or(false) {
+    let (_, _, c): (_, _, FSeq) = driver::load_replay(path)?;
+    return Ok(driver::guarded(|| check_seq(&c, &mut Stats::dummy())));
+  }
   let (_, _, c): (_, _, FCase) = driver::load_replay(path)?;
   Ok(driver::guarded(|| check(&c, &mut Stats::dummy())))
 }
 
 pub fn run(tier: Tier, seed: u64) -> i32 {
-  let rule = "proptest-generated (state when stamped, state when checked, checker) over a real temp directory: states = absent / file of size 0,1,8191,8192,8193,16384,65537 or random <100k with pseudo-random bytes / directory whose entry names are drawn from strings over {a,b,c} of length 1-3 (so concatenations collide); modification times set explicitly (filetime), equal or seconds apart; oracle: stamp(path) = stamp_reader(fresh reader) = stamp_writer(writer just used through Resource::write); check vs fresh stamp consistent; after stamp_reader the full content is readable (also through a task under Pie); after moving to the second state check is inconsistent iff the observed aspect differs (existence; existence or mtime; absent<->present, file content, directory name set - file<->directory and same names re-created are not asserted); PathBuf::write truncates/creates files and refuses directories; non-trivial = the two states differ, or file >= 8 KiB buffer, or directory with >=2 entries; distinct by case hash";
+  let rule = "proptest-generated (state when stamped, state when checked, checker) over a real temp directory: states = absent / file of size 0,1,8191,8192,8193,16384,65537 or random <100k with pseudo-random bytes / directory whose entry names are drawn from strings over {a,b,c} of length 1-3 (so concatenations collide); modification times set explicitly (filetime), equal or seconds apart; oracle: stamp(path) = stamp_reader(fresh reader) = stamp_writer(writer just used through Resource::write); check vs fresh stamp consistent; after stamp_reader the full content is readable (also through a task under Pie); after moving to the second state check is inconsistent iff the observed aspect differs (existence; existence or mtime; absent<->present, file content, directory name set - file<->directory and same names re-created are not asserted); PathBuf::write truncates/creates files and refuses directories; a quarter of the file pairs change the content but keep length (and often mtime). Second search: sequences of 2-6 steps (new state or leave untouched) on ONE Pie instance / resource state: in every step all earlier stamps are checked (1-3 rounds) against the current state with the same oracle, then the state is stamped through path, fresh reader and - for files written through Resource::write - the writer, which must agree; non-trivial = the two states differ, or file >= 8 KiB buffer, or directory with >=2 entries (pairs), >=2 state changes (sequences); distinct by case hash";
   let mut report = Report::new("C13", tier, seed, "exploration", rule);
   let known = Known::load("C13");
   super::prologue(&mut report, &known);
@@ -259,6 +386,10 @@ pub fn run(tier: Tier, seed: u64) -> i32 {
   let cfg = SearchCfg { prop: "C13", label: "pair", seed, shards, cases_per_shard: cases, max_shrink_iters: 400 };
   let (stats, found) = driver::search(&cfg, &known, strategy, |c, s| check(c, s), |c| format!("{:?}", c));
   report.absorb("pair", stats, found);
+  let (shards, cases) = match tier { Tier::Quick => (8, 300), Tier::Thorough => (16, 8000) };
+  let cfg = SearchCfg { prop: "C13", label: "seq", seed, shards, cases_per_shard: cases, max_shrink_iters: 400 };
+  let (stats, found) = driver::search(&cfg, &known, seq_strategy, |c, s| check_seq(c, s), |c| format!("{:?}", c));
+  report.absorb("seq", stats, found);
   report.assumptions = vec!["runs on the filesystem of the system temp dir of this sandbox; directory iteration order and timestamp granularity of other platforms are not explored".into(), "mtimes are set explicitly, never read from the clock".into()];
   report.finish()
 }
